@@ -1,5 +1,5 @@
 """property -> rules"""
-from . import rules_dd, rules_bounds, rules_limits, rules_tools, rules_conv, rules_handles, rules_access, rules_coders, rules_errors, rules_layout, rules_ann, rules_mem, rules_sd, rules_cache, rules_attr, rules_gr, rules_ref, rules_repack
+from . import rules_dd, rules_bounds, rules_limits, rules_tools, rules_conv, rules_handles, rules_access, rules_coders, rules_errors, rules_layout, rules_ann, rules_mem, rules_sd, rules_cache, rules_attr, rules_gr, rules_ref, rules_repack, rules_stale
 
 CLANG = "clang 14 parser, constant evaluator and CFG builder (via tools/h4x.cc)"
 CDB = "compile flags taken from ninja -t compdb of /repo/_build (or a throw-away cmake configure)"
@@ -253,14 +253,14 @@ PROPS["C10"] = {
     "technique": "path-sensitive dirty-flag typestate over clang CFGs plus layout extraction",
 }
 
-PROPS["C12"]["rules"] = PROPS["C12"]["rules"] + [rules_ref.rule_maxref, rules_ref.rule_maxref_registered, rules_ref.rule_fresh_cursor]
-PROPS["C12"]["explanation"] += " (MAXREF) filerec_t.maxref, from which Hnewref's fast path hands out `++maxref` without looking at the directory, never decreases: every store is a constructor's 0, an increment guarded by `maxref < MAX_REF`, or `= e` guarded by `e > maxref`; (MAXREG) HTPcreate, which enters every new tag/ref into the directory, leaves maxref >= that reference on every non-failing path. (CURSOR) every whole-directory search (Hnewref's free-ref scan, HTPcreate's free-slot search, Hfind's first search) passes HTIfind_dd a cursor that is NULL on every path, so it cannot resume behind descriptors that are in use."
+PROPS["C12"]["rules"] = PROPS["C12"]["rules"] + [rules_ref.rule_maxref, rules_ref.rule_maxref_registered, rules_ref.rule_fresh_cursor, rules_dd.rule_unrolled_pairs]
+PROPS["C12"]["explanation"] += " (MAXREF) filerec_t.maxref, from which Hnewref's fast path hands out `++maxref` without looking at the directory, never decreases: every store is a constructor's 0, an increment guarded by `maxref < MAX_REF`, or `= e` guarded by `e > maxref`; (MAXREG) HTPcreate, which enters every new tag/ref into the directory, leaves maxref >= that reference on every non-failing path. (UNROLL2) the directory-counting loop that takes two descriptors per iteration consumes the odd descriptor of a block unconditionally first. (CURSOR) every whole-directory search (Hnewref's free-ref scan, HTPcreate's free-slot search, Hfind's first search) passes HTIfind_dd a cursor that is NULL on every path, so it cannot resume behind descriptors that are in use."
 PROPS["C20"]["rules"] = PROPS["C20"]["rules"] + [rules_ref.rule_maxref, rules_bounds.rule_F2_globals, rules_bounds.rule_parallel_arrays, rules_bounds.rule_ref_tables, rules_limits.rule_write_wrap_guard]
 PROPS["C20"]["explanation"] += " (WRAPPOS) Hwrite bounds position + length by INT32_MAX before it dispatches to a special write routine (which add the length unchecked). (REFTABLE) a table indexed by reference number has MAX_REF + 1 entries. (PARALLEL) local arrays that one running counter fills in lock-step have the same dimension. (F2g) a running counter that indexes a fixed-size static table (the token tables of scanattrs) is compared with the table size before every use. (MAXREF) the per-file highest-reference counter never decreases or wraps (see C12)."
 PROPS["C17"]["rules"] = PROPS["C17"]["rules"] + [rules_ref.rule_fresh_cursor]
 PROPS["C17"]["explanation"] += " (CURSOR) whole-directory searches start from a NULL cursor, so a new object can never be given a reference an older object already uses."
-PROPS["C01"]["rules"] = PROPS["C01"]["rules"] + [rules_ref.rule_ext_offset]
-PROPS["C01"]["explanation"] += " (EXTOFF) every posn-relative seek on an external element's stream adds extern_offset, the write-retry path included."
+PROPS["C01"]["rules"] = PROPS["C01"]["rules"] + [rules_ref.rule_ext_offset, rules_stale.rule_sibling_stale]
+PROPS["C01"]["explanation"] += " (SIBSTALE) no loop reads, in one arm of an if/else, an iteration-local variable that only the other arm assigns (the byte count a block walk accumulates is the one of the current block). (EXTOFF) every posn-relative seek on an external element's stream adds extern_offset, the write-retry path included."
 PROPS["C16"]["rules"] = PROPS["C16"]["rules"] + [rules_ref.rule_ext_offset]
 PROPS["C16"]["explanation"] = PROPS["C16"]["explanation"].replace(" Not decided: whether", " (EXTOFF) the retry that HXPwrite performs after a failed write seeks to the same `posn + extern_offset` as the first attempt. Not decided: whether")
 
